@@ -22,7 +22,7 @@ try:
         if not os.path.exists(os.path.join(d, 'patch.diff')):
             continue
         meta = json.load(open(os.path.join(d, 'meta.json')))
-        cmd = re.split(r'\s{2,}#|\s#\s', meta['demo_cmd'])[0].strip()
+        cmd = re.split(r'\s{2,}#|\s#\s|\s{2,}\(', meta['demo_cmd'])[0].strip()
         if os.path.exists(os.path.join(d, 'demo_override.txt')):
             cmd = open(os.path.join(d, 'demo_override.txt')).read().strip()
         res = {'name': m, 'group': grp, 'demo_cmd': cmd}
